@@ -10,19 +10,19 @@ Local Open Scope Z_scope.
 From EphVerif Require Import lib.Bytes model.Sha256Model model.FetchCliModel proofs.FetchCliProofs.
 
 (* whatever every endpoint on every path answers, in every mode: a file that is written hashes to the manifest's hash *)
-Theorem c30_file_matches_manifest : forall P mode hints local b,
-  r_file (fetch sha256 (sha256 P) mode hints local) = Some b -> sha256 b = sha256 P.
+Theorem c30_file_matches_manifest : forall P mode expired hints local b,
+  r_file (fetch sha256 (sha256 P) mode expired hints local) = Some b -> sha256 b = sha256 P.
 Proof. exact file_matches_manifest. Qed.
 Print Assumptions c30_file_matches_manifest.
 (* the same for any hash function and any manifest hash *)
-Theorem c30_file_matches_manifest_any_hash : forall hash h mode hints local b,
-  r_file (fetch hash h mode hints local) = Some b -> hash b = h.
+Theorem c30_file_matches_manifest_any_hash : forall hash h mode expired hints local b,
+  r_file (fetch hash h mode expired hints local) = Some b -> hash b = h.
 Proof. exact fetch_writes_only_matching. Qed.
 
 (* an endpoint that returns other bytes makes that path fail: the whole command behaves exactly (exit code, file, serving
    endpoint, endpoints tried) as if each such endpoint had refused *)
-Theorem c30_mismatch_is_refusal : forall hash h mode hints local,
-  fetch hash h mode (map (soften_hint hash h) hints) (soften hash h local) = fetch hash h mode hints local.
+Theorem c30_mismatch_is_refusal : forall hash h mode expired hints local,
+  fetch hash h mode expired (map (soften_hint hash h) hints) (soften hash h local) = fetch hash h mode expired hints local.
 Proof. exact mismatch_is_refusal. Qed.
 Print Assumptions c30_mismatch_is_refusal.
 
@@ -33,13 +33,15 @@ Proof. exact genuine_payload_accepted. Qed.
 
 (* non-vacuity: payload "hi"; a transport hint whose peer returns "ho", a control hint (priority 2) returning "hx", a control
    hint (priority 1) that refuses, a fallback returning "hi": the fallback (index 3) serves after 0, 2, 1 failed; with
-   --transport-only nothing is written and the exit code is 1; with no hints the local daemon's "hi" is written *)
+   --transport-only nothing is written and the exit code is 1; with no hints the local daemon's "hi" is written; an expired manifest: the transport peer is
+   not asked and the local daemon's "hx" is refused *)
 Example c30_examples :
   let P := [104; 105] in
   let hints := [mkHint 0 1 (Payload [104; 111]); mkHint 1 2 (Payload [104; 120]); mkHint 1 1 Refuse; mkHint 2 9 (Payload P)] in
-  let r := fetch sha256 (sha256 P) 0 hints Unreach in
-  let r2 := fetch sha256 (sha256 P) 2 hints (Payload P) in
-  let r3 := fetch sha256 (sha256 P) 0 [] (Payload P) in
-  (r_exit r, r_file r, r_served r, r_tried r, (r_exit r2, r_file r2, r_tried r2), (r_exit r3, r_file r3, r_served r3))
-  = (0, Some P, 3, [0; 2; 1; 3], (1, None, [0]), (0, Some P, 100)).
+  let r := fetch sha256 (sha256 P) 0 false hints Unreach in
+  let r2 := fetch sha256 (sha256 P) 2 false hints (Payload P) in
+  let r3 := fetch sha256 (sha256 P) 0 false [] (Payload P) in
+  let r4 := fetch sha256 (sha256 P) 0 true [mkHint 0 1 (Payload P)] (Payload [104; 120]) in
+  (r_exit r, r_file r, r_served r, r_tried r, (r_exit r2, r_file r2, r_tried r2), (r_exit r3, r_file r3, r_served r3), (r_exit r4, r_file r4))
+  = (0, Some P, 3, [0; 2; 1; 3], (1, None, [0]), (0, Some P, 100), (1, None)).
 Proof. vm_compute. reflexivity. Qed.
